@@ -112,8 +112,9 @@ impl Workspace {
   /// Removes a definition from workspace, deletes all model evaluators,
   /// switches a workspace to state `STASHING`.
   pub fn remove(&mut self, namespace: &str, name: &str) {
-    self.definitions_by_namespace.remove(namespace);
-    self.definitions_by_name.remove(name);
+    // every definitions having the specified namespace or name are removed, together with their own reservations
+    self.definitions_by_namespace.retain(|_, d| d.namespace() != namespace && d.name() != name);
+    self.definitions_by_name.retain(|_, d| d.namespace() != namespace && d.name() != name);
     self.definitions.retain(|d| d.namespace() != namespace && d.name() != name);
     self.clear_model_evaluators();
   }
